@@ -309,6 +309,7 @@ func main() {
 		name   string
 		seeds  [][]byte
 		decode func(b []byte) (reenc []byte, id []byte, err error)
+		stable func(b []byte) string // for accepted bytes: "" or why the ID is not stable under re-encoding
 	}
 	blockSeed := func() []byte {
 		h := &blockchain.BlockHeader{Version: 2, Timestamp: 100, Height: 3, PreviousBlockID: bytes.Repeat([]byte{1}, 32), GeneratorAddress: bytes.Repeat([]byte{2}, 20),
@@ -326,13 +327,40 @@ func main() {
 				return nil, nil, err
 			}
 			return tx.Encode(), tx.ID, nil
-		}},
+		}, nil},
 		{"Block", [][]byte{blockSeed()}, func(b []byte) ([]byte, []byte, error) {
 			bl, err := blockchain.NewBlock(b)
 			if err != nil {
 				return nil, nil, err
 			}
 			return bl.Encode(), nil, nil
+		}, func(b []byte) string {
+			bl, _ := blockchain.NewBlock(b)
+			want := sha256.Sum256(bl.Header.Encode())
+			if !bytes.Equal(bl.Header.ID, want[:]) {
+				return "the block ID is not the hash of its (re-encoded) header"
+			}
+			if re, err := blockchain.NewBlock(bl.Encode()); err != nil || !bytes.Equal(re.Header.ID, bl.Header.ID) {
+				return "the block ID changes when the block is encoded and decoded again"
+			}
+			return ""
+		}},
+		{"BlockHeader", [][]byte{func() []byte { bl, _ := blockchain.NewBlock(blockSeed()); return bl.Header.Encode() }()}, func(b []byte) ([]byte, []byte, error) {
+			h, err := blockchain.NewBlockHeader(b)
+			if err != nil {
+				return nil, nil, err
+			}
+			return h.Encode(), nil, nil
+		}, func(b []byte) string {
+			h, _ := blockchain.NewBlockHeader(b)
+			want := sha256.Sum256(h.Encode())
+			if !bytes.Equal(h.ID, want[:]) {
+				return "the header ID is not the hash of its (re-encoded) bytes"
+			}
+			if re, err := blockchain.NewBlockHeader(h.Encode()); err != nil || !bytes.Equal(re.ID, h.ID) {
+				return "the header ID changes when the header is encoded and decoded again"
+			}
+			return ""
 		}},
 		{"BlockAsset", [][]byte{(&blockchain.BlockAsset{Module: "token", Data: []byte{1, 2, 3}}).Encode()}, func(b []byte) ([]byte, []byte, error) {
 			a, err := blockchain.NewBlockAsset(b)
@@ -340,7 +368,7 @@ func main() {
 				return nil, nil, err
 			}
 			return a.Encode(), nil, nil
-		}},
+		}, nil},
 		{"EventPostSingleCommits", func() [][]byte {
 			p := types["consensus.EventPostSingleCommits"]()
 			fill(reflect.ValueOf(p).Elem(), 2, 0)
@@ -351,7 +379,7 @@ func main() {
 				return nil, nil, err
 			}
 			return m.Encode(), nil, nil
-		}},
+		}, nil},
 	}
 	maxLen := 2
 	if r.Thorough() {
@@ -376,6 +404,11 @@ func main() {
 				r.AddMap("non_canonical_encodings_accepted_informational", st.name, 1)
 			} else if !bytes.Equal(re, in) {
 				viol("non-canonical-accepted:"+st.name+":"+how, fmt.Sprintf("strict decoding of %s accepts %x (%s) although its canonical encoding is %x", st.name, in, how, re), caseT{Type: st.name, Bytes: fmt.Sprintf("%x", in), What: how})
+			}
+			if st.stable != nil {
+				if why := st.stable(in); why != "" {
+					viol("id-not-stable:"+st.name, fmt.Sprintf("%s decoded from %x (%s): %s", st.name, in, how, why), caseT{Type: st.name, Bytes: fmt.Sprintf("%x", in), What: how})
+				}
 			}
 			if id != nil {
 				h := sha256.Sum256(in)
